@@ -444,6 +444,7 @@ func (g *Engine) RunTrailConcrete(harness string, params map[string]int, model m
 	e.params = params
 	e.paramsUsed = map[string]int{}
 	e.concrete = model
+	e.ts.concrete = true
 	if e.concrete == nil {
 		e.concrete = map[string]uint64{}
 	}
@@ -496,6 +497,9 @@ func (g *Engine) confirmViolation(nr *nativeRunner, harness string, params map[s
 			return err.Error(), false
 		}
 		last = out
+		if out.AssumeFailed && len(out.Failed) == 0 && out.Panic == "" {
+			continue
+		}
 		switch v.Kind {
 		case "race":
 			if strings.Contains(out.Fail, "DATA RACE") {
